@@ -177,8 +177,14 @@ func c06run(c *hx.Ctx, cs c06case) error {
 				}
 				to := w.Addrs[i]
 				tx, _ := types.SignTx(&types.Transaction{Type: types.SendTx, To: &to, AccountNonce: uint32(pn), Epoch: uint16(pe), MaxFee: chainfx.Dna(200)}, w.Keys[i])
-				val, app, _, _ := verdicts(tx)
+				val, app, proc, _ := verdicts(tx)
 				c.Line(fmt.Sprintf("probe %d %d %d", i, pe, pn), fmt.Sprintf("val=%s app=%s", av(val), av(app)))
+				// independent reference of the statement itself: a transaction may be applied only when it is signed for
+				// the current epoch and carries the sender's next nonce (1 for the first transaction of an epoch)
+				if (app || proc) && !(pe == int(ep) && pn == int(cur)+1) {
+					fail("C06:nonce-rule-violated", fmt.Sprintf("height %d: a funded send of sender %d signed for epoch %d with nonce %d is applied (applyTxOnState=%v processTxs=%v) while the chain is in epoch %d and the sender's current nonce is %d",
+						n.Chain.Head.Height(), i, pe, pn, app, proc, ep, cur))
+				}
 				c.Hit(fmt.Sprintf("probe:de=%d,dn=%d:%s/%s", pe-int(ep), pn-int(cur), av(val), av(app)))
 			}
 		}
